@@ -43,11 +43,17 @@ GL5 == [ty |-> 4, rules |-> << <<3, 2, 2>>, <<4, 2, 2, 2>>, <<2, 2, 11>> >>] \* 
 GL6 == [ty |-> 1, rules |-> << <<5, 0>>, <<0, 2>>, <<11, 12>> >>]         \* D->.notdef, .notdef->A, acute->grave
 GL7 == [ty |-> 4, rules |-> << <<14, 6, 6, 7>>, <<13, 6, 6>>, <<9, 6, 7>> >>] \* ffi, ff, fi
 
+GL8 == [ty |-> 2, rules |-> << <<3, 2, 2>>, <<6, 6, 7>>, <<5, 4>> >>]              \* B->A A, f->f i, D->C (multiple)
+GL9 == [ty |-> 2, rules |-> << <<2, 2, 3, 11>> >>]                           \* A->A B acute
+
 GP1 == [ty |-> 2, rules |-> << <<2, 3, -50, 0, 0, 0>>, <<2, 4, -30, 0, 0, 0>>, <<3, 2, 25, 0, 0, 0>> >>]
 GP2 == [ty |-> 2, rules |-> << <<2, 2, -10, 0, 1, -20>>, <<3, 3, 5, 3, 0, 0>> >>]
 GP3 == [ty |-> 2, rules |-> << <<9, 2, -15, 0, 0, 0>>, <<2, 11, 7, 0, 0, 0>>, <<11, 2, 9, -4, 0, 0>>,
                                <<0, 0, 11, 0, 0, 0>> >>]
 GP4 == [ty |-> 2, rules |-> << <<2, 3, -70, 0, 0, 0>>, <<2, 3, -1, 0, 0, 0>>, <<6, 7, -8, 0, 1, 6>> >>]
+
+GP5 == [ty |-> 1, rules |-> << <<2, -40, 0>>, <<9, 13, 5>>, <<3, -45, -2>>, <<2, 99, 0>>, <<11, 6, 0>> >>]  \* single adjustment
+GP6 == [ty |-> 1, rules |-> << <<2, -25, 0>>, <<4, -25, 0>>, <<13, -25, 0>>, <<0, -25, 0>> >>]             \* one value for all
 
 Dummy == [ty |-> 1, rules |-> <<>>]
 
@@ -87,8 +93,8 @@ GLMarkMenu  == << <<>>, <<11, 12>> >>
 GLPlanMenu  == << Pl(0, 0, 0, 0, 0, 0, 0), Pl(0, 0, 0, 0, 0, 0, 0), Pl(0, 0, 0, 0, 0, 0, 0), Pl(2, 2, 1, 0, 0, 0, 0), Pl(3, 3, 2, 0, 0, 0, 0),
                   Pl(0, 0, 0, 2, 2, 1, 0), Pl(0, 0, 0, 3, 2, 2, 0), Pl(2, 2, 1, 2, 2, 1, 0), Pl(3, 3, 3, 2, 2, 2, 0),
                   Pl(4, 3, 2, 3, 3, 2, 0), Pl(1, 1, 1, 1, 1, 1, 0), Pl(3, 2, 3, 1, 1, 1, 0) >>
-GLGsubMenu  == <<GL1, GL2, GL3, GL4, GL5, GL6, GL7>>
-GLGposMenu  == <<GP1, GP2, GP3, GP4>>
+GLGsubMenu  == <<GL1, GL2, GL3, GL4, GL5, GL6, GL7, GL8, GL9>>
+GLGposMenu  == <<GP1, GP2, GP3, GP4, GP5, GP6, GP5>>
 GLFeatTagsG == <<"liga", "smcp", "ccmp", "test">>
 GLFeatTagsP == <<"kern", "mark", "cpsp">>
 GLLkMenu    == << <<0>>, <<1>>, <<2>>, <<1, 0>>, <<0, 0, 2>>, <<7, 1>>, <<3, 0>> >>
@@ -145,8 +151,8 @@ XLWidthMenu == <<W1>>
 XLMarkMenu  == << <<>>, <<11, 12>> >>
 XLPlanMenu  == << Pl(0, 0, 0, 0, 0, 0, 0), Pl(1, 1, 1, 0, 0, 0, 0), Pl(0, 0, 0, 1, 1, 1, 0), Pl(2, 1, 1, 0, 0, 0, 0) >>
 XLPlanMenuT == XLPlanMenu \o << Pl(1, 1, 1, 1, 1, 1, 0), Pl(1, 1, 2, 0, 0, 0, 0) >>
-XLGsubMenu  == <<GL1, GL3, GL5>>
-XLGposMenu  == <<GP1, GP3>>
+XLGsubMenu  == <<GL1, GL3, GL5, GL8>>
+XLGposMenu  == <<GP1, GP3, GP5>>
 XLFeatTagsG == <<"liga", "smcp">>
 XLFeatTagsP == <<"kern">>
 XLLkMenu    == << <<0>>, <<1, 0>> >>
@@ -163,6 +169,9 @@ XLPlanMenuQ == SubSeq(XLPlanMenu, 1, 3)
 XLReqPoolQ  == <<Plain[1]>>
 XLSwMenuGQ  == << Sw(TRUE, <<>>), Sw(FALSE, <<"smcp">>) >>
 XLCharsQ    == {65, 102, 105, 769}
+XLGsubMenuQ == <<GL3, GL8>>          \* f i -> fi (a string that shrinks to ONE glyph), f -> f i (one that grows)
+XLGposMenuQ == <<GP1, GP5>>          \* pair and single adjustment
+XLLkMenuQ   == << <<0>> >>
 
 (* exhaustive: feature selection, all script lists with <= 3 language systems *)
 XFPlanMenu  == << Pl(3, 2, 1, 0, 0, 0, 0), Pl(3, 2, 2, 0, 0, 0, 0) >>
